@@ -136,4 +136,15 @@ func init() {
 		Outside: []string{"re-parse digest equality and verification after signing (need the PKCS#7 crypto model; the specification-level lemma 'specified signed file is well-formed and keeps the specification digest' was attempted and is undecided by the solvers within 20 s per query: harness VC03_SignedIsWellFormed is kept but not registered)", "acceptance by real firmware"},
 		Assumptions: commonAssumptions,
 	}
+	c09 := func(name string, lists, entries, timeout int, reach ...string) HarnessSpec {
+		return HarnessSpec{Name: name, Params: map[string]int{"vsymC09Lists": lists, "vsymC09Entries": entries}, MaxPaths: 3000000, TimeoutSec: timeout, NeedReach: reach}
+	}
+	registry["C09"] = &Property{
+		Quick: []HarnessSpec{c09("VC09_Append", 2, 2, 300, "append-ok", "append-error", "end"), c09("VC09_Remove", 2, 2, 300, "remove-ok", "remove-error", "end"), c09("VC09_Membership", 2, 1, 300, "end")},
+		Thorough: []HarnessSpec{c09("VC09_Append", 3, 2, 3000, "append-ok", "append-error", "end"), c09("VC09_Remove", 3, 2, 3000, "remove-ok", "remove-error", "end"), c09("VC09_Membership", 2, 2, 3000, "end")},
+		Bounds: []string{"one operation (Append / Remove / BytesExists / SigDataExists) with symbolic arguments from an arbitrary valid pre-state: 0..2 lists x 1..2 entries (quick; membership 1 entry per list) / 0..3 x 1..2 (thorough), list kinds SHA-256, X.509 of 3/4/59 bytes, SHA-1; argument types SHA-256, X.509, SHA-1, unknown GUID; data lengths 32, 3, 4, 33, 20, 59; X.509 data raw or as PEM text (vsym.PEMOf); owners and data symbolic",
+			"pre-state invariant Inv: ListSize = 28 + n*Size, every entry has Size bytes, n >= 1, no duplicate inside a list; histories of any length follow by induction on the step, the empty database is the base case"},
+		Outside: []string{"AppendList / AppendDatabase and the list-level API (SignatureList.AppendBytes on a list of another size)", "duplicates across two lists of equal type and size (the statement is read per list)", "real certificates (data is opaque bytes)"},
+		Assumptions: append([]string{"encoding/pem.Decode is modelled: PEM inputs are introduced with vsym.PEMOf (decode to their DER bytes), other symbolic data is assumed not to be PEM text; native replays use the real encoding/pem"}, commonAssumptions...),
+	}
 }
